@@ -63,6 +63,25 @@ claimed = {
          "Proof that no callback executor reaches the driver in DryRun mode and that the session flags ToSQL sets are the ones the executors test.",
          "same-text part (no DryRun-dependent write to SQL/Vars) not yet mechanised", "4/C19"),
 }
+
+# additions made after the first version of the table above (appended to the level text)
+extra = {
+ 'C01': " Also proved: the placeholders of an already rendered text (raw sub-query in AddVar, ON conditions of a relation join) are rewritten one per bound value.",
+ 'C03': " Also proved: values of a slice of maps are stored at their own row/column position; without RETURNING the generated key given to the k-th key-less record is the reported id moved by k increments (both walking directions).",
+ 'C04': " Also proved: Commit/Rollback never call into a typed-nil transaction (failed BEGIN); SAVEPOINT / ROLLBACK TO of a nested block run on the caller's handle (same context and connection).",
+ 'C05': " Also proved: the error returned by the statement's ExecContext/QueryContext reaches AddError in Create/Update/Delete/Query/RawExec; gorm:begin_transaction is registered first and gorm:commit_or_rollback_transaction last in the create/update/delete pipelines; several batches run in one wrapping transaction.",
+ 'C08': " Also proved: the ON clause of an association join is built after the joined model's query modifiers (soft-delete filter) on every path; the raw-condition grouping harness of C02 is run for C08 as well (bounded).",
+ 'C09': " Also proved: Delete and the soft-delete UPDATE derive key conditions first from the deleted value, then from the Model value, each only when key values were found; Update adds a key condition only for a record whose key is set.",
+ 'C11': " Also proved: Statement.clone copies every preload into a map of its own.",
+ 'C13': " Also proved: batches run without a wrapping transaction only when a single batch suffices; each hook flag of a schema is looked up by the hook's own name.",
+ 'C14': " Also proved: a statement evicted after driver.ErrBadConn is handed to a closer (all four Exec/Query wrappers).",
+ 'C15': " Also proved: OrderBy.MergeClause accumulates columns in call order in the chain's own list (functional contract); First/Last/Take ask for one row in ascending/descending/no key order and raise not-found; Count restores ORDER BY and SELECT on a chain in progress; Scan records the cursor's error when the first Next is false.",
+ 'C16': " Also proved: Save enters the UPDATE path for a struct only after every primary field of the value was read and found non-zero.",
+ 'C17': " Also proved: the '*' pre-sort of sortCallbacks is a stable sort (no unstable sort of the callback list anywhere); the bounded harness also drives Before/After(x).Replace.",
+ 'C18': " Also proved: SAVEPOINT / ROLLBACK TO of a nested Transaction are issued through the receiver itself (same context).",
+ 'C19': " Also proved: Config.DryRun is read only at the driver-call gates, in Execute's epilogue, Save, Row and Rows; a real run clears the built text and values, a dry run keeps them; ToSQL hands its callback a DryRun session of the receiver's own chain.",
+ 'C20': " Also proved: the index pass runs after every column and constraint step; bool defaults are compared as parsed values.",
+}
 na_reason = {
  'C07': "quantifies over goroutine schedules and data races; sequential contracts cannot decide it (DESIGN.md section 5)",
 }
@@ -95,7 +114,7 @@ for pid in sorted(props):
           "evidence_file": f"/verif/evidence/{pid}.json",
           "replay_cmd_template": "/verif/bin/gvc replay {path}",
           "engine": "gvc",
-          "level_claimed": {"category": "proof", "text": text, "design_ref": ref},
+          "level_claimed": {"category": "proof", "text": text + extra.get(pid, ""), "design_ref": ref},
           "level_note": note,
           "technique": tech})
     else:
